@@ -50,6 +50,7 @@ def run(check: Check) -> None:
     pushdown.infix_to_postfix(check)
     w1_operand_order(check)
     loaders.loader(check, "Antecedent.load")
+    wiring.rule_load_semantics(check)  # "a loaded rule": Rule.load replaces what was loaded before by the reading of the current text
     h1_hedge_storage(check)
     from .antecedent_sem import antecedent_semantics
 
